@@ -72,16 +72,6 @@ theorem skipAll_silent (c : Config) (s : State) (k : Nat) : SilentPath c s (skip
       exact ih.trans ⟨[.acquireSkip k], .single h2, rfl⟩
     · exact ih
 
-theorem vanishAll_silent (c : Config) (s : State) (k : Nat) : SilentPath c s (vanishAll c s k) := by
-  induction k with
-  | zero => exact .refl c s
-  | succ k ih =>
-    simp only [vanishAll]
-    split
-    · rename_i s2 h2
-      exact ih.trans ⟨[.vanish k], .single h2, rfl⟩
-    · exact ih
-
 theorem advance_silent {c : Config} {i : Nat} (fuel : Nat) {s s' : State}
     (h : advanceUntilLaunched c i fuel s = some s') : SilentPath c s s' := by
   induction fuel generalizing s with
@@ -104,8 +94,7 @@ theorem drain_silent (c : Config) (fuel : Nat) (s : State) : SilentPath c s (dra
   | zero => exact .refl c s
   | succ fuel ih =>
     simp only [drain]
-    have h0 : SilentPath c s (skipAll c (vanishAll c s c.n) c.n) :=
-      (vanishAll_silent c s c.n).trans (skipAll_silent c _ c.n)
+    have h0 : SilentPath c s (skipAll c s c.n) := skipAll_silent c s c.n
     split
     · rename_i s2 h2
       exact (h0.trans (mainStep_silent h2)).trans (ih s2)
